@@ -62,6 +62,19 @@ def names(tier):
     return list(universe(tier))
 
 
+def foreign():
+    """Failed blocks made elsewhere and handed in by the caller (moved over from another library, built by a tool):
+    blocks like any other for add / remove / replace - never a reason to reject or roll back a call."""
+    from bibtexparser.model import DuplicateFieldKeyBlock, MiddlewareErrorBlock
+
+    return {
+        "xD": lambda: DuplicateBlockKeyBlock(key="a", previous_block=Entry("article", "a", [Field("t", "1")]), duplicate_block=Entry("misc", "a", [Field("v", "3")], raw="@misc{a, v = 3}"), raw="@misc{a, v = 3}"),
+        "xDF": lambda: DuplicateFieldKeyBlock({"x"}, Entry("y", "b", [Field("x", "1"), Field("x", "2")], raw="@y{b, x = 1, x = 2}")),
+        "xME": lambda: MiddlewareErrorBlock(Entry("article", "a", [Field("author", "A,")], raw="@article{a, author = {A,}}"), error=ValueError("bad name")),
+        "xF": lambda: ParsingFailedBlock(error=Exception("e"), raw="@broken{"),
+    }
+
+
 def maxlen(tier):
     return 3 if tier == "quick" else 4
 
@@ -189,6 +202,7 @@ def grows(op):
 class World:
     def __init__(self, tier, init=()):
         self.uni = {k: f() for k, f in universe(tier).items()}
+        self.uni.update({k: f() for k, f in foreign().items()})  # (looked up by name only: not part of the closure's alphabet)
         self.model = Model()
         if init:
             blocks = [self.uni[n] for n in init]
@@ -275,7 +289,11 @@ class World:
                 if arg is None:
                     return None
                 new = self.uni[op[2]]
-                real = lambda: lib.replace(arg, new, fail_on_duplicate_key=op[3])
+                # (the flag in every spelling: left out where it is the documented default True, by position, by keyword)
+                if op[1][0] == "u":
+                    real = (lambda: lib.replace(arg, new)) if op[3] else (lambda: lib.replace(arg, new, False))
+                else:
+                    real = lambda: lib.replace(arg, new, fail_on_duplicate_key=op[3])
                 ref = lambda: model.replace(tgt if tgt[0] == "blk" or isinstance(arg, DuplicateBlockKeyBlock) else ("blk", arg), new, op[3])
                 flag = op[3]
         except KeyError:
@@ -468,10 +486,40 @@ def explore(tier, seed, acc, procs):
 def shards(tier):
     U = names(tier)
     first_ops = [op for op in ops_for(tier, 0) if grows(op) <= maxlen(tier)]
-    return [("nodedup", i) for i in range(len(first_ops))]
+    return [("nodedup", i) for i in range(len(first_ops))] + [("foreign", i) for i in range(len(INITS))]
+
+
+def run_foreign(tier, init, acc):
+    """Every way of bringing one caller-made failed block in (add, replace at every position, every flag), then every
+    single operation naming it or a second one; judged against the model after each call like everything else."""
+    X = list(foreign())
+    n0 = len(World(tier, init).lib.blocks)
+    firsts = [("add", x, f) for x in X for f in (False, True)] + [("rep", ("p", p), x, f) for p in range(n0) for x in X for f in (False, True)]
+    for op1 in firsts:
+        hist = [list(init)]
+        w = build(tier, hist)
+        acc.trace()
+        acc.case(nontrivial_key=("foreign", tuple(init), op1))
+        acc.count("foreign_block_histories")
+        if not w.apply(op1, acc, hist):
+            continue
+        n1 = len(w.lib.blocks)
+        x = op1[1] if op1[0] == "add" else op1[2]
+        seconds = [("rem", ("u", x)), ("add", x, False), ("add", "Ea2", True), ("add", "Sa", False)]
+        seconds += [("rep", ("u", x), y, f) for y in X + ["Ea2", "Sa2", "P"] if y != x for f in (False, True)]
+        seconds += [("rep", ("p", p), y, True) for p in range(n1) for y in X if y != x]
+        for op2 in seconds:
+            h2 = hist + [list(op1)]
+            w2 = build(tier, h2)
+            acc.trace()
+            acc.case(nontrivial_key=("foreign", tuple(init), op1, op2))
+            acc.count("foreign_block_histories")
+            w2.apply(op2, acc, h2)
 
 
 def run_shard(shard, tier, acc):
+    if shard[0] == "foreign":
+        return run_foreign(tier, INITS[shard[1]], acc)
     _, i = shard
     first_ops = [op for op in ops_for(tier, 0) if grows(op) <= maxlen(tier)]
     op1 = first_ops[i]
